@@ -83,16 +83,29 @@ def generate(ctx):
                "box": [[L[0], 0.0, 0.0], [0.0, L[1], 0.0], [0.0, 0.0, L[2]]],
                "shift_t": [rng.randint(-3, 3) for _ in range(3)], "shift_s": [rng.randint(-3, 3) for _ in range(3)]}
     n_main = ctx.n(2000, 100000)
+    prevL = None
+    prev_box = None
     for _ in range(n_main):
+        reused = False
         k = rng.random()
         if k < 0.5:
             cls = "ortho"
             L = [rng.choice([rng.uniform(0.5, 20.0), 10 ** rng.uniform(math.log10(0.5), math.log10(20.0))])
                  for _ in range(3)]
+            if prevL is not None and rng.random() < 0.25:
+                L = list(prevL)          # same edge lengths as an earlier (possibly triclinic) box of this run
+                reused = True
+            prevL = L
             box = [[L[0], 0.0, 0.0], [0.0, L[1], 0.0], [0.0, 0.0, L[2]]]
         elif k < 0.9:
             cls = "triclinic"
             L = [rng.uniform(0.5, 20.0) for _ in range(3)]
+            if prevL is not None and rng.random() < 0.35:
+                # a different cell with the SAME diagonal as an earlier box of this run (the process is shared by
+                # all cases: anything the library caches per box must not be keyed on the edge lengths alone)
+                L = list(prevL)
+                reused = True
+            prevL = L
             # GROMACS convention: v1 = (a,0,0), v2 = (b_x, b, 0), v3 = (c_x, c_y, c), |skew| <= 0.5 edge
             box = [[L[0], 0.0, 0.0],
                    [rng.uniform(-0.5, 0.5) * L[0], L[1], 0.0],
@@ -138,8 +151,13 @@ def generate(ctx):
         else:
             nt = rng.choice([1, 2, 4, 5])
             target = {"residue": _cloud(rng, c_tgt, nt, 0.3) if nt > 1 else [c_tgt]}
-        yield {"kind": "pbc", "cls": cls, "self": self_pts, "target": target, "box": box,
-               "shift_t": [rng.randint(-3, 3) for _ in range(3)], "shift_s": [rng.randint(-3, 3) for _ in range(3)]}
+        case = {"kind": "pbc", "cls": cls, "self": self_pts, "target": target, "box": box,
+                "shift_t": [rng.randint(-3, 3) for _ in range(3)], "shift_s": [rng.randint(-3, 3) for _ in range(3)]}
+        if reused and prev_box is not None and box is not None:
+            case["prior_box"] = prev_box      # makes the history part of the (replayable) case
+        if box is not None and cls != "singular":
+            prev_box = box
+        yield case
 
 
 def _brute_min_image(v, L):
@@ -190,6 +208,10 @@ def evaluate(ctx, case):
     ctx.count("target:" + ("point" if t_pts is None else "residue"))
     ctx.count(f"self-atoms:{len(self_pts)}")
 
+    if case.get("prior_box") is not None:
+        # history: the library was used with another box (same edge lengths) just before
+        ctx.count("history:prior-box-same-diagonal")
+        _call(lambda: res_self.distance_to(target, box_vects=np.array(case["prior_box"], dtype=float)))
     d, err = _call(lambda: res_self.distance_to(target, box_vects=Bro))
     fails = []
     detail = {"value": d, "error": err}
